@@ -12,6 +12,7 @@ use zydeco_statics::syntax::TermAnnId;
 
 thread_local! {
     static LAST_PANIC: RefCell<Option<(String, String)>> = const { RefCell::new(None) };
+    static GUARD_DEPTH: std::cell::Cell<u32> = const { std::cell::Cell::new(0) };
 }
 
 /// Install a panic hook that records message+location per thread and prints nothing.
@@ -19,6 +20,9 @@ pub fn install_quiet_panic_hook() {
     std::panic::set_hook(Box::new(|info| {
         let loc = info.location().map(|l| format!("{}:{}", l.file(), l.line())).unwrap_or_default();
         let msg = payload_str(info.payload());
+        if GUARD_DEPTH.with(|d| d.get()) == 0 {
+            eprintln!("zyv: unguarded panic: {msg} at {loc}");
+        }
         LAST_PANIC.with(|p| *p.borrow_mut() = Some((msg, loc)));
     }));
 }
@@ -42,7 +46,10 @@ pub struct PanicInfo {
 /// Run `f` under catch_unwind, returning the panic message and location on unwind.
 pub fn guarded<T>(f: impl FnOnce() -> T) -> Result<T, PanicInfo> {
     LAST_PANIC.with(|p| *p.borrow_mut() = None);
-    match std::panic::catch_unwind(std::panic::AssertUnwindSafe(f)) {
+    GUARD_DEPTH.with(|d| d.set(d.get() + 1));
+    let result = std::panic::catch_unwind(std::panic::AssertUnwindSafe(f));
+    GUARD_DEPTH.with(|d| d.set(d.get() - 1));
+    match result {
         | Ok(v) => Ok(v),
         | Err(payload) => {
             let (msg, loc) = LAST_PANIC
